@@ -457,6 +457,11 @@ def c15(scen, rec, f):
         want = rec.get("pickler_at_submit", {}).get(str(t))
         if want is not None and name != want:
             out.append(("C15", "pickler-not-from-submit", f"task {t} was submitted under loky_pickler={want} but its worker used {name}"))
+    for t, name in rec.get("pickler_at_result", []):
+        want = rec.get("pickler_at_submit", {}).get(str(t))
+        if want is not None and name != want:
+            out.append(("C15", "result-pickler-not-from-submit", f"task {t} was submitted under loky_pickler={want} but its "
+                        f"result was pickled in the worker under {name}"))
     return out
 
 
